@@ -68,7 +68,7 @@ structure MRange where
   sub : Bytes
   /-- quality in thousandths -/
   q : Nat
-  deriving Repr
+  deriving Repr, DecidableEq
 
 def digitVal (c : Char) : Option Nat := if '0' ≤ c ∧ c ≤ '9' then some (c.toNat - '0'.toNat) else none
 
